@@ -56,10 +56,18 @@ def gen_rx_case(rng):
     late = rng.random() < 0.5
     gap = T + d if late else max(0, T - d)
     ops = []
+    bs = p['blocksize']
+    # the frame before the gap asks for a Flow Control (First Frame or end of a block): the receive pass and the transmit pass may
+    # be separate calls with time in between; the deadline then runs from the emission of the Flow Control (the second call)
+    fc_point = (pos == 1) or (bs and (pos - 1) % bs == 0)
+    split = fc_point and not p.get('listen_mode') and rng.random() < 0.5
     for i, f in enumerate(frames):
         if i == pos:
             ops += gap_ops(rng, gap, rng.randint(0, 3))
-        ops += [[0, 'rx', rid, int(ext), hx(f)], [0, 'proc', 1, 1], [0, 'recv']]
+        if split and i == pos - 1:
+            ops += [[0, 'rx', rid, int(ext), hx(f)], [0, 'proc', 1, 0], [0, 'tick', rng.choice([T // 2, max(0, T - 1), T // 3])], [0, 'proc', 0, 1], [0, 'recv']]
+        else:
+            ops += [[0, 'rx', rid, int(ext), hx(f)], [0, 'proc', 1, 1], [0, 'recv']]
     ops += [[0, 'proc', 1, 1], [0, 'recv']]
     # then silence
     ops += [[0, 'tick', 3 * T + 7], [0, 'proc', 1, 1], [0, 'tick', T + 1], [0, 'proc', 1, 1], [0, 'recv']]
